@@ -76,6 +76,7 @@ template<int B, template<class> class SRelax> static void cpr_block_case(const P
     auto Km=hx::to_amgcl(K); typedef amgcl::static_matrix<scalar,B,B> Blk; typedef be::builtin<Blk> BB; typedef amgcl::relaxation::as_preconditioner<BE,amgcl::relaxation::spai0> PP; typedef amgcl::relaxation::as_preconditioner<BB,SRelax> SPc; typedef amgcl::preconditioner::cpr<PP,SPc> CPR; typename CPR::params prm; prm.active_rows = active_blocks;
     CPR C(amgcl::adapter::block_matrix<Blk>(*Km),prm); int Nb = active_blocks ? active_blocks : nb; Mat Kd=K.dense(); Vec f=hx::sym_vector("f",n);
     { Mat F=dense_of(*C.Fpp); hx::require("block-valued CPR: weighting operator has one row per active block", (int)F.size()==Nb && (int)F[0].size()==Nb*B); Vec got, ref; for (int ip=0;ip<Nb;++ip) for (int j=0;j<B;++j) { scalar s=0; for (int i=0;i<B;++i) s+=F[ip][ip*B+i]*Kd[ip*B+i][ip*B+j]; got.push_back(s); ref.push_back(scalar(j==0?1:0)); } hx::prove_eq_vec("block-valued CPR: weighting row * diagonal block = e_1^T (first row of the inverse of the diagonal block)", got, ref);
+      { const auto &Ap=C.P->system_matrix(); bool wf=Ap.nrows==(size_t)Nb && Ap.ncols==(size_t)Nb; for (size_t i=0;i<Ap.nrows && wf;++i) for (ptrdiff_t k=Ap.ptr[i];k<Ap.ptr[i+1];++k) wf=wf && Ap.col[k]>=0 && (size_t)Ap.col[k]<Ap.ncols; hx::require("block-valued CPR: the pressure matrix is Nb x Nb with in-range column indices (couplings to inactive rows are not part of it)", wf); if (!wf) return; }
       Mat App=dense_of(C.P->system_matrix()); Vec g2, r2v; for (int ip=0;ip<Nb;++ip) for (int jp=0;jp<Nb;++jp) { scalar s=0; for (int i=0;i<B;++i) s+=F[ip][ip*B+i]*Kd[ip*B+i][jp*B]; g2.push_back(App[ip][jp]); r2v.push_back(s); } hx::prove_eq_vec("block-valued CPR: pressure matrix = weighted first-unknown columns of A", g2, r2v); }
     auto act=[&](const CPR &Cx) { NV F=hx::to_numa(f), X(n,false); for (int i=0;i<n;++i) X[i]=hx::junk("x"+std::to_string(i)); auto Fb=be::reinterpret_as_rhs<Blk>(F); auto Xb=be::reinterpret_as_rhs<Blk>(X); Cx.apply(Fb,Xb); return hx::to_vec(X); };
     Vec x=act(C); { bool clean=true; for (auto &v : x) clean=clean&&hx::independent_of(v,"junk_"); hx::require("block-valued CPR: apply() does not depend on the old content of x", clean); }
